@@ -101,6 +101,16 @@ fn terminal_case(own: bool, partner: bool) {
 fn axle_n<const N: usize>() {
     println!("CASE axle {}", N);
     let mut ax = Axle::<N, E>::new();
+    // boundary probes: an index the axle does not have must be refused (panic), never answered
+    // with a reference past the terminal array
+    for bad in [N, N + 1, usize::MAX] {
+        let r = std::panic::catch_unwind(std::panic::AssertUnwindSafe(|| {
+            let t = ax.get_terminal(bad);
+            let s: Output<State, E> = t.borrow().get();
+            s
+        }));
+        assert!(r.is_err(), "Axle<{}>::get_terminal({}) returned a terminal", N, bad);
+    }
     for i in 0..N {
         let s: Output<State, E> = ax.get_terminal(i).borrow().get();
         assert_eq!(s, Ok(None));
@@ -148,6 +158,13 @@ fn splitmix(s: &mut u64) -> u64 {
 
 fn main() {
     let args: Vec<String> = std::env::args().collect();
+    // expected panics (the boundary probes) should not clutter the output
+    std::panic::set_hook(Box::new(|info| {
+        let expected = info.to_string().contains("index out of bounds") || info.to_string().contains("terminal index");
+        if !expected {
+            eprintln!("{}", info);
+        }
+    }));
     let mut cases = 0u64;
     match args.get(1).map(|s| s.as_str()) {
         Some("only") => {
